@@ -164,7 +164,7 @@ def injector_pair(kind, frame, rng_seed):
         if kind == "swap":
             return inj(data, f, t, col(0), col(1))
         if kind == "shift":
-            return inj(data, f, t, col(0), 0.5)
+            return inj(data, f, t, col(0), 0.0 if rng_seed % 3 == 1 else 0.5)          # (a shift factor of 0 - nothing moves - still returns a NEW object)
         if kind == "labelswap":
             return inj(data, f, t, col(2), 0.0, 1.0)
         if kind == "labeljoin":
